@@ -265,6 +265,27 @@ def run(prog, rep, tier):
                     for f_ in o[2]:
                         if f_ not in ("*", "&"):
                             iter_fields.add(f_)
+    # ... and the pass must look at the whole index: a walk that resumes above a remembered key
+    # (range(self.<cursor>..)) never meets an item that was put back below the cursor
+    partial = []
+    for c in dd.live_calls():
+        if c.d.split("::")[-1] in ("range", "range_mut", "split_off") and c.args and len(c.args) >= 2:
+            if any(o[0] == "arg" and o[1] == 1 and any(f_ in o[2] for f_ in iter_fields) for o in dd.origins(c.args[0])):
+                lo_from_self = False
+                for o in dd.origins(c.args[1]):
+                    if o[0] == "agg":
+                        st_ = dd.stmts(o[1])[o[2]]
+                        for op_ in st_[2][2]:
+                            if op_[0] != "k" and any(x[0] == "arg" and x[1] == 1 for x in dd.origins(op_)):
+                                lo_from_self = True
+                    elif o[0] == "arg" and o[1] == 1:
+                        lo_from_self = True
+                if lo_from_self:
+                    partial.append(c)
+    rep.examined(R176, dd.path + "|whole-index", sample={"iterated_fields": sorted(iter_fields), "resumed_range_walks": [c.line for c in partial]})
+    if partial:
+        rep.violation(R176, dd.path + "|whole-index", "SyslineReader::drop_data walks self.%s from a remembered key (range(self.<cursor>..), line %d) instead of the whole index; a message that drop_sysline puts back after a failed "
+                      "Arc::try_unwrap lies below that key and is never visited again, so its lines and blocks stay until exit" % (sorted(iter_fields)[0], partial[0].line))
     tus = [c for c in ds.live_calls() if c.d.split("::")[-1] == "try_unwrap" and "Arc" in c.d]
     rem = []
     for c in ds.live_calls():
